@@ -197,6 +197,12 @@ fn worker(args: &[String]) -> i32 {
         if max_seconds > 0 && started.elapsed().as_secs() >= max_seconds {
             break;
         }
+        // memory guard: the engine leaks its proof trees; a chunk that has grown past 6 GiB ends
+        // here (its remaining indices are reported as not run)
+        if k % 16 == 0 && resident_kib() > 6_000_000 {
+            rep.harness_errors.push(format!("chunk starting at {} stopped at index {}: resident set above 6 GiB", first, index));
+            break;
+        }
         // enough violations to report: the verdict is known, stop spending time on this chunk
         if max_violations > 0 && rep.violations.len() as u64 >= max_violations {
             break;
